@@ -10,6 +10,7 @@ import BV.C01.HeightLemmas
 import BV.C01.ApiLemmas
 import BV.C01.RawLemmas
 import BV.C01.C13Lemmas
+import BV.C01.PermLemmas
 import BV.Generated.C01
 import BV.C09.Model
 namespace BV.C01
@@ -508,6 +509,18 @@ theorem bip34_extract_sound (s : List Nat) (h : Int) (hs : extractHeight s = .ok
 example : checkSerializedHeight [3, 0x40, 0x0d, 0x03, 0x51] 200000 = true ∧
     checkSerializedHeight [2, 0x09, 0x00] 9 = false ∧ checkSerializedHeight [4, 0x09, 0x00] 9 = false ∧
     checkSerializedHeight [0x60] 16 = true ∧ checkSerializedHeight [1, 0x10] 16 = false := by decide
+
+/-! ### position independence -/
+
+/-- Everything the rules read from the inputs of a transaction is independent of the position of the inputs
+    (the violating input may be first, in the middle or last). -/
+theorem tx_predicates_position_independent (t : TxFacts) (ins' : List InFacts) (h : t.ins.Perm ins')
+    (height cutoff mtp : Int) (p2sh segwit : Bool) (p : InFacts → Bool) :
+    let t' : TxFacts := { t with ins := ins' }
+    t'.isCoinbase = t.isCoinbase ∧ t'.allAvail = t.allAvail ∧ t'.inSum = t.inSum ∧ t'.fee = t.fee ∧
+    t'.final height cutoff = t.final height cutoff ∧ t'.seqLocksOk height mtp = t.seqLocksOk height mtp ∧
+    t'.sigopCost p2sh segwit = t.sigopCost p2sh segwit ∧ ins'.all p = t.ins.all p :=
+  PermLemmas.tx_predicates_position_independent t ins' h height cutoff mtp p2sh segwit p
 
 /-! ### the clock -/
 
